@@ -33,8 +33,15 @@ class PathLimit(Exception):
     pass
 
 
+class PredLoc:
+    """a set of locations of one heap given by a predicate over refs (set-valued modifies item)"""
+    def __init__(self, holds, key):
+        self.holds = holds
+        self.key = key
+
+
 class St:
-    __slots__ = ('heaps', 'alloc', 'pc', 'ex', 'gen', 'psums', 'recent_idx')
+    __slots__ = ('heaps', 'alloc', 'pc', 'ex', 'gen', 'psums', 'recent_idx', 'iters')
 
     def __init__(self, ex):
         self.ex = ex
@@ -44,6 +51,7 @@ class St:
         self.gen = 0
         self.psums = {}
         self.recent_idx = ()
+        self.iters = {}
 
     def fork(self):
         s = St(self.ex)
@@ -53,6 +61,7 @@ class St:
         s.gen = self.gen
         s.psums = {k: list(v) for k, v in self.psums.items()}
         s.recent_idx = self.recent_idx
+        s.iters = dict(self.iters)
         return s
 
     def assume(self, t):
@@ -133,6 +142,7 @@ class Executor:
         self.prune_solver.set('timeout', 300)
         self.prune_depth = 0
         self.unfold_done = set()
+        self.iter_counter = 0
         self.view_versions = {}
         self.fresh_ids = set()
         self.fresh_keep = []
@@ -367,7 +377,10 @@ class Executor:
             if n == name or n == '*':
                 if r is None:
                     return
-                alts.append(ref == r)
+                if isinstance(r, PredLoc):
+                    alts.append(r.holds(ref))
+                else:
+                    alts.append(ref == r)
         goal = z3.simplify(z3.Or(*alts))
         if z3.is_true(goal):
             return
@@ -483,6 +496,12 @@ class Executor:
             frame.params[p['n']] = v
             self.assume_refs(st, v)
             self.type_invariant(st, v)
+            if self.m.kind(p['t']) == 'interface':
+                t = self.m.types.get(p['t']) or {}
+                impls = t.get('impls') or (self.m.types.get(self.m.under(p['t'])) or {}).get('impls') or []
+                for c in impls:
+                    if c in self.m.any_index:
+                        self.assume_payload_refs(st, c, v.leaves[0])
         for p in fn.freevars:
             v = Val(p['t'], [z3.Const('fv_%s%s' % (p['n'], ('_%d' % i) if i else ''), l.sort()) for i, l in enumerate(self.m.fresh_val(p['t']).leaves)])
             frame.fvs[p['n']] = v
@@ -739,6 +758,10 @@ class Executor:
         self.flush_ref_axioms(st)
         frame = frame.copy()
         self._cur_frame = frame
+        iid = self.loop_iterator(frame, h)
+        if iid is not None and iid in st.iters:
+            seen, dom0 = st.iters[iid]
+            st.iters[iid] = (self.m.fresh('seen_l%d' % L['ord'], seen.sort()), dom0)
         for ins in fn.blocks[h]['instrs']:
             if ins['op'] != 'Phi':
                 break
@@ -827,6 +850,8 @@ class Executor:
                 if n == name or n == '*':
                     if ref is None:
                         wild = True
+                    elif isinstance(ref, PredLoc):
+                        conds.append(z3.Not(ref.holds(r)))
                     else:
                         conds.append(r != ref)
             if not wild:
@@ -1095,6 +1120,8 @@ class Executor:
                             out.add('H|bigrat||Real')
                         else:
                             return None
+                    elif f == 'cellsof':
+                        out.add('H|bigint||Int')
                     elif f in ('val', 'rat'):
                         out.add('H|bigint||Int' if f == 'val' else 'H|bigrat||Real')
                         bt = static_type(ast[2][0])
@@ -1500,6 +1527,7 @@ class Executor:
             raise Unsupported('type assert to unknown concrete type ' + at)
         ok = m.any_is(at, a)
         got = m.any_get(at, a)
+        self.assume_payload_refs(st, at, a)
         if ins.get('commaok'):
             zero = m.zero_val(at).leaves
             leaves = [z3.If(ok, g, z) for g, z in zip(got, zero)]
@@ -1507,6 +1535,14 @@ class Executor:
         self.safety(st, frame, 'typeassert', ins, ok, 'failed type assertion')
         v = Val(at, got)
         return v
+
+    def assume_payload_refs(self, st, c, a):
+        """every reference stored inside an existing interface value denotes an allocated object"""
+        for (path, sort, tk), leaf in zip(self.m.layout(c), self.m.any_get(c, a)):
+            if sort == 'Int':
+                k = self.m.kind(tk)
+                if k in ('pointer', 'map') or (k == 'slice' and path.endswith('#arr')):
+                    st.assume(z3.Implies(self.m.any_is(c, a), z3.And(leaf >= 0, leaf < st.alloc)))
 
     def iface_ok(self, a, iface_t):
         m = self.m
@@ -1768,11 +1804,19 @@ class Executor:
 
     def i_Range(self, st, frame, ins):
         x = self.operand(st, frame, ins['args'][0])
-        return Val(ins['t'], [], py=('range', x, {'visited': None}))
+        if self.m.kind(x.t) != 'map':
+            return Val(ins['t'], [], py=('range', x, None))
+        self.iter_counter += 1
+        iid = self.iter_counter
+        u, K, V = self.map_parts(x.t)
+        ks = self.m.map_key_sort(x.t)
+        dom0 = z3.Select(st.heap('MD|%s' % u), x.leaves[0])
+        st.iters[iid] = (z3.K(ks, z3.BoolVal(False)), dom0)
+        return Val(ins['t'], [], py=('range', x, iid))
 
     def i_Next(self, st, frame, ins):
         it = self.operand(st, frame, ins['args'][0])
-        _, x, info = it.py
+        _, x, iid = it.py
         ok = self.m.fresh('next_ok', self.m.Bool)
         if ins.get('isstring'):
             idx = self.m.fresh('next_idx', self.m.Int)
@@ -1780,12 +1824,33 @@ class Executor:
             st.assume(z3.Implies(ok, z3.And(idx >= 0, idx < self.m.slen(x.leaves[0]))))
             return self.tuple_val(ins['t'], [Val('bool', [ok]), Val('int', [idx]), Val('rune', [rune])])
         u, K, V = self.map_parts(x.t)
+        ks = self.m.map_key_sort(x.t)
+        seen, dom0 = st.iters[iid]
+        mref = x.leaves[0]
+        # the map must not gain or lose keys while it is being iterated (otherwise the visit set is unspecified)
+        domnow = z3.Select(st.heap('MD|%s' % u), mref)
+        if not domnow.eq(dom0):
+            self.safety(st, frame, 'maprange', ins, domnow == dom0, 'map modified while it is iterated')
         kv = self.m.fresh_val(K, 'next_k')
-        vv, present = self.map_lookup(st, x.t, x.leaves[0], self.key_term(kv))
-        st.assume(z3.Implies(ok, present))
+        key = self.key_term(kv)
+        vv, present = self.map_lookup(st, x.t, mref, key)
+        st.assume(z3.Implies(ok, z3.And(mref != 0, z3.Select(dom0, key), z3.Not(z3.Select(seen, key)))))
+        kq = z3.Const('k!nx', ks)
+        st.assume(z3.Implies(z3.Not(ok), z3.Or(mref == 0, forall([kq], z3.Implies(z3.Select(dom0, kq), z3.Select(seen, kq)),
+                                                                patterns=[z3.Select(dom0, kq)]))))
         self.assume_refs(st, vv)
-        self.last_next = (ok, kv, vv, x)
+        st.iters[iid] = (z3.If(ok, z3.Store(seen, key, z3.BoolVal(True)), seen), dom0)
         return self.tuple_val(ins['t'], [Val('bool', [ok]), kv, vv])
+
+    def loop_iterator(self, frame, h):
+        """the map iterator advanced in the header of loop h (range over a map), or None"""
+        for ins in frame.fn.blocks[h]['instrs']:
+            if ins['op'] == 'Next' and not ins.get('isstring'):
+                a = ins['args'][0]
+                v = frame.regs.get(a.get('n'))
+                if v is not None and isinstance(v.py, tuple) and v.py[0] == 'range' and v.py[2] is not None:
+                    return v.py[2]
+        return None
 
     # ------------------------------------------------------------------ calls
     def do_call(self, frame, b, i, prev, st, k, ins):
@@ -1895,7 +1960,20 @@ class Executor:
             for cl in c.modifies:
                 mod.extend(self.spec.lvalue_locs(cl.ast, env))
             for (n, r) in mod:
-                if r is not None:
+                if isinstance(r, PredLoc):
+                    if self.modset is None:
+                        continue
+                    if any((mn == n or mn == '*') and (mr is None or (isinstance(mr, PredLoc) and mr.key == r.key)) for (mn, mr) in self.modset):
+                        continue
+                    x = z3.Int('x!fr')
+                    alts = [x >= self.entry_alloc]
+                    for (mn, mr) in self.modset:
+                        if mn == n or mn == '*':
+                            alts.append(mr.holds(x) if isinstance(mr, PredLoc) else x == mr)
+                    self.oblige(st, frame, 'frame', 'call:%s:%s' % (self.short(f2).split('.')[-1], 'cells'),
+                                forall([x], z3.Implies(r.holds(x), z3.Or(*alts))), self.frame_props, ins.get('line', 0),
+                                'the callee may write a set of locations the caller may not')
+                elif r is not None:
                     self.frame_check(st, frame, n, r)
                 elif self.modset is not None and not any((mn == n or mn == '*') and mr is None for (mn, mr) in self.modset):
                     self.oblige(st, frame, 'frame', 'call:%s:%s' % (self.short(f2), n[-30:]), z3.BoolVal(False), self.frame_props,
